@@ -334,6 +334,8 @@ def oracle_multi(case, lines, casedir):
                 seqs[k] += 1
         elif t[0] == "X" and int(t[1]) < K:
             alive[int(t[1])] = False
+        elif t[0] == "O" and int(t[1]) < K:
+            alive[int(t[1])] = True
     host = pid = None
     names = []
     for l in lines:
@@ -349,9 +351,14 @@ def oracle_multi(case, lines, casedir):
             return "sink %d (%s) produced no file" % (k, kinds[k])
         if any(name_epoch(n, host, pid) is None for n in mine):
             return "sink %d: a file name is not basename.YYYYmmdd-HHMMSS.%s.%s.log: %s" % (k, host, pid, mine[:2])
+        parts = [open(os.path.join(casedir, n), "rb").read() for n in mine]
+        whole = b"".join(parts)
+        if whole != bytes(want[k]) and len(whole) < len(want[k]) and bytes(want[k]).endswith(whole) and any(op.split()[0] == "O" for op in case.ops):
+            return ("sink %d (%s): the first %d of the %d bytes given to it are missing from its files although the rest is there: "
+                    "what a destroyed sink had written was lost when a new sink opened the same file name again"
+                    % (k, kinds[k], len(want[k]) - len(whole), len(want[k])))
         got, acc = b"", 0
-        for n in mine:
-            part = open(os.path.join(casedir, n), "rb").read()
+        for n, part in zip(mine, parts):
             got += part
             acc += len(part)
             if acc not in bounds[k] and acc <= len(want[k]):
@@ -398,6 +405,20 @@ def multi_cases(rng):
             ops.append("F %d" % order[-1])
         cs.append(vlib.Case("multi_%s_%d" % (kinds, i), "multi sinks=%s roll=%d flush=3 every=%d now=%d"
                             % (kinds, rng.choice([1000000000, 5000, 20000]), rng.choice([1, 7, 1024]), now), ops, "multi-sink"))
+    # a logger stopped and started again with the same basename (O after X): within the same second it gets the same
+    # file name and must CONTINUE that file; a second later it gets a new one.  Nothing written before may disappear.
+    for i, kinds in enumerate(["L", "A", "LA", "AL"]):
+        lens = "@20:300:%d" % rng.randint(1, 9999)
+        now = rng.choice([1000, 86398])
+        ops = []
+        for k in range(len(kinds)):
+            ops += ["W %d %d %s" % (k, rng.randint(3, 9), lens)]
+        ops += ["X 0", "O 0", "W 0 %d %s" % (rng.randint(2, 6), lens), "P 12", "X 0", "O 0", "W 0 2 %s" % lens,
+                "T %d" % (now + 2), "X 0", "O 0", "W 0 %d %s" % (rng.randint(2, 6), lens)]
+        if len(kinds) > 1:
+            ops += ["W 1 3 %s" % lens, "X 1", "O 1", "W 1 2 %s" % lens]
+        cs.append(vlib.Case("multi_reopen_%s_%d" % (kinds, i), "multi sinks=%s roll=1000000000 flush=3 every=%d now=%d"
+                            % (kinds, rng.choice([1, 1024]), now), ops, "multi-sink"))
     return cs
 
 
